@@ -403,20 +403,21 @@ impl PackageBuilder {
             .to_string_lossy()
             .to_string();
 
-        let (cpio_path, dir) = if dest.starts_with('.') {
+        let dir = if dest.starts_with('.') {
             let parent = parent
                 .strip_prefix(".")
                 .map_err(|_| Error::InvalidDestinationPath {
                     path: dest.clone(),
                     desc: "no parent directory found",
                 })?;
-            (
-                dest.to_string(),
-                dir_name(&format!("/{}", parent.to_string_lossy())),
-            )
+            dir_name(&format!("/{}", parent.to_string_lossy()))
         } else {
-            (format!(".{}", dest), dir_name(&parent.to_string_lossy()))
+            dir_name(&parent.to_string_lossy())
         };
+        // the archive member name is the installed path with a leading ".": built from the same
+        // directory and base name the header records, not from the destination as it was spelled
+        // ("/etc//x", "/etc/./x" and "/etc/x/" all name /etc/x)
+        let cpio_path = format!(".{}{}", dir, base_name);
 
         let mut hasher = sha2::Sha256::default();
         hasher.update(&content);
